@@ -55,6 +55,11 @@ HARNESSES = [
     dict(name="main_tar2sqfs", file="main_tar2sqfs.c", label="proved",
          fp={"destroy": ["in_destroy", "it_destroy"]},
          timeout=300, cases=[dict(id="all", tier="quick")]),
+    dict(name="rd_fill_files", file="rd_fill_files.c",
+         label="bounded(file list <= 2, tree <= 3 nodes)", unwind=5, timeout=600,
+         fp={"destroy": ["out_destroy", "in_destroy"], "flush": "out_flush"},
+         cases=[dict(id="add_file", defines={"RD_CASE": 0}, tier="quick"),
+                dict(id="unpack", defines={"RD_CASE": 1}, tier="quick")]),
     dict(name="alloc", file="alloc.c", label="bounded(item size in {1,8,16})", timeout=120,
          cases=[dict(id="item%d" % n, defines={"ITEM": n}, tier="quick") for n in (1, 8, 16)]),
     dict(name="array_ops", file="array_ops.c", label="proved", unwind=66, timeout=600,
